@@ -89,6 +89,8 @@ type FnCtx struct {
 	allocEntry string
 	ghostCounts map[string]int
 	cntFuncs    map[string]*cntInfo
+	compRef     map[string]bool
+	entryAssumes []*Clause
 	specErrors    []string
 	callbackCalls []string
 	externUsed    map[string]bool
@@ -128,6 +130,12 @@ func (tr *FnCtx) declare(name, sort string) string {
 func (tr *FnCtx) define(name, sort, term string) string {
 	s := sym(name)
 	tr.decl[s] = true
+	if strings.HasPrefix(sort, "(Array") && strings.HasPrefix(term, "(ite ") {
+		// keep conditionals out of array-valued definitions: they would end up inside quantifier patterns
+		tr.emit(fmt.Sprintf("(declare-const %s %s)", s, sort))
+		tr.emit(fmt.Sprintf("(assert (= %s %s))", s, term))
+		return s
+	}
 	tr.emit(fmt.Sprintf("(define-fun %s () %s %s)", s, sort, term))
 	return s
 }
@@ -176,6 +184,30 @@ func (tr *FnCtx) regComp(c Comp) {
 	if _, ok := tr.comps[c.Name]; !ok {
 		tr.comps[c.Name] = c.Sort
 	}
+	if c.Ref {
+		if tr.compRef == nil {
+			tr.compRef = map[string]bool{}
+		}
+		tr.compRef[c.Name] = true
+	}
+}
+
+// refAxiom: heap well-formedness — a reference stored in an allocated cell points to an allocated object
+// (Go is memory safe). alloc is the allocation counter of the state the symbol belongs to.
+func (tr *FnCtx) refAxiom(st *State, c Comp, s string) {
+	if !tr.compRef[c.Name] || st.Formal != nil {
+		return
+	}
+	alloc := tr.cur(st, compAlloc)
+	if strings.Contains(s, "@g") {
+		alloc = tr.declare(fmt.Sprintf("$alloc@g%d", st.Gen), "Int")
+	}
+	switch {
+	case strings.HasPrefix(c.Sort, "(Array Int (Array Int "):
+		tr.emit(fmt.Sprintf("(assert (forall ((m Int) (k Int)) (! (=> (< m %s) (and (<= 0 (select (select %s m) k)) (< (select (select %s m) k) %s))) :pattern ((select (select %s m) k)))))", alloc, s, s, alloc, s))
+	case strings.HasPrefix(c.Sort, "(Array Int "):
+		tr.emit(fmt.Sprintf("(assert (forall ((x Int)) (! (=> (isold x %s) (isold (select %s x) %s)) :pattern ((select %s x)))))", alloc, s, alloc, s))
+	}
 }
 
 func (tr *FnCtx) cur(st *State, c Comp) string {
@@ -198,6 +230,7 @@ func (tr *FnCtx) cur(st *State, c Comp) string {
 	}
 	s := tr.declare(name, c.Sort)
 	tr.mapDefaultAxiom(st, c, s)
+	tr.refAxiom(st, c, s)
 	return s
 }
 
@@ -211,7 +244,7 @@ func (tr *FnCtx) mapDefaultAxiom(st *State, c Comp, s string) {
 	if k < 0 {
 		return
 	}
-	dc := Comp{"MD." + c.Name[3:k], "(Array Int (Array Int Bool))"}
+	dc := Comp{"MD." + c.Name[3:k], "(Array Int (Array Int Bool))", false}
 	d := tr.cur(st, dc)
 	z := zeroOf(strings.TrimSuffix(strings.TrimPrefix(c.Sort, "(Array Int (Array Int "), "))"))
 	tr.emit(fmt.Sprintf("(assert (forall ((m Int) (k Int)) (! (=> (not (select (select %s m) k)) (= (select (select %s m) k) %s)) :pattern ((select (select %s m) k)))))", d, s, z, s))
@@ -230,6 +263,7 @@ func (tr *FnCtx) havocComp(st *State, c Comp) string {
 	s := tr.freshConst(c.Name+"@h", c.Sort)
 	st.Comps[c.Name] = s
 	tr.mapDefaultAxiom(st, c, s)
+	tr.refAxiom(st, c, s)
 	return s
 }
 
@@ -246,10 +280,10 @@ func elemSort(arr string) string {
 	return strings.TrimSuffix(s, ")")
 }
 
-var compAlloc = Comp{"$alloc", "Int"}
-var compPub = Comp{"$pub", "(Array Int Bool)"}
-var compHeld = Comp{"$held", "Int"}
-var compClock = Comp{"$clock", "Int"}
+var compAlloc = Comp{"$alloc", "Int", false}
+var compPub = Comp{"$pub", "(Array Int Bool)", false}
+var compHeld = Comp{"$held", "Int", false}
+var compClock = Comp{"$clock", "Int", false}
 
 // mergeStates joins several (edgeCondition, state) pairs.
 func (tr *FnCtx) mergeStates(conds []string, sts []*State) *State {
@@ -283,7 +317,7 @@ func (tr *FnCtx) mergeStates(conds []string, sts []*State) *State {
 	}
 	sort.Strings(ks)
 	for _, k := range ks {
-		c := Comp{k, tr.comps[k]}
+		c := Comp{k, tr.comps[k], false}
 		first := tr.cur(sts[0], c)
 		same := true
 		syms := make([]string, len(sts))
@@ -384,7 +418,7 @@ func (tr *FnCtx) loadFrom(st *State, p *Val, t types.Type) *Val {
 			}
 		case LLocal:
 			for _, a := range atoms {
-				c := Comp{"L." + l.ID + "." + joinPath(l.Prefix, a.Path), a.Sort}
+				c := Comp{"L." + l.ID + "." + joinPath(l.Prefix, a.Path), a.Sort, false}
 				v.A = append(v.A, tr.cur(st, c))
 			}
 		case LGlobal:
@@ -412,7 +446,7 @@ func (tr *FnCtx) loadFrom(st *State, p *Val, t types.Type) *Val {
 func (tr *FnCtx) assumeLoaded(st *State, v *Val) {
 	tr.assumeWellFormed(v)
 	if v.T != nil && isRefLike(v.T) && len(v.A) == 1 {
-		tr.assume("(< " + v.A[0] + " " + tr.cur(st, compAlloc) + ")")
+		tr.assume("(isold " + v.A[0] + " " + tr.cur(st, compAlloc) + ")")
 	}
 	if v.T != nil {
 		if _, ok := v.T.Underlying().(*types.Slice); ok && len(v.A) == 4 {
@@ -446,7 +480,7 @@ func (tr *FnCtx) storeTo(st *State, p *Val, val *Val) {
 				return
 			}
 			for i, a := range atoms {
-				c := Comp{"L." + l.ID + "." + joinPath(l.Prefix, a.Path), a.Sort}
+				c := Comp{"L." + l.ID + "." + joinPath(l.Prefix, a.Path), a.Sort, false}
 				tr.set(st, c, val.A[i])
 			}
 		case LGlobal:
@@ -575,8 +609,10 @@ const preamble = `(set-option :produce-models true)
 (declare-fun elemB (Int) Int)
 (declare-fun elemI (Int) Int)
 (assert (forall ((b Int) (i Int)) (! (and (= (elemB (elem b i)) b) (= (elemI (elem b i)) i) (< (elem b i) 0)) :pattern ((elem b i)))))
+(assert (forall ((a Int)) (! (=> (< a 0) (= (elem (elemB a) (elemI a)) a)) :pattern ((elemB a)) :pattern ((elemI a)))))
 (declare-fun at (Int Int Int) Int)
 (assert (forall ((b Int) (o Int) (i Int)) (! (= (at b o i) (elem b (+ o i))) :pattern ((at b o i)))))
+(define-fun isold ((x Int) (a Int)) Bool (ite (< x 0) (< (elemB x) a) (< x a)))
 (declare-fun card ((Array Int Bool)) Int)
 (declare-fun str_lt (Int Int) Bool)
 (declare-fun str_cat (Int Int) Int)
@@ -693,7 +729,12 @@ func (tr *FnCtx) Translate() (err error) {
 	for _, fv := range fn.FreeVars {
 		v := tr.freshVal(fv.Type(), "fv_"+fv.Name())
 		tr.vals[fv] = v
-		tr.params[fv.Name()] = v
+		pv := *v
+		pv.AutoDeref = fn.Parent() != nil && !strings.HasSuffix(fn.Name(), "$bound")
+		tr.params[fv.Name()] = &pv
+		if pv.AutoDeref && len(v.A) == 1 {
+			tr.assumeRaw("(> " + v.A[0] + " 0)") // address of a captured variable's cell: an allocated object, never a slice element
+		}
 		tr.assumeLoaded(st, v)
 	}
 	// preconditions
@@ -1331,7 +1372,7 @@ func (tr *FnCtx) rangeInit(st *State, x *ssa.Range) {
 		tr.vals[x] = &Val{T: x.Type(), A: []string{"0"}}
 		return
 	}
-	c := Comp{"$seen." + x.Name(), "(Array Int Bool)"}
+	c := Comp{"$seen." + x.Name(), "(Array Int Bool)", false}
 	tr.rangeSeen[x] = c
 	tr.set(st, c, "((as const (Array Int Bool)) false)")
 	tr.vals[x] = &Val{T: x.Type(), A: []string{tr.val(x.X).one()}}
